@@ -151,4 +151,15 @@ def validRun (tl : Int) (s : State) : List (Int × Draw) → Bool
   | [] => true
   | (a, d) :: rest => validGhostDraw s d && validRun tl (step tl s a d).1 rest
 
+/-- (audit r5 #1) NO DEAD END: every free cell has at least two moves (of the four, with wrap-around) leading to a free cell.
+This is the condition under which the real ghost policy (`ghost_move`, utils.py: the reverse direction and walls cost `inf`,
+`random.choice` among the minimal-cost directions) always has a finite-cost direction, i.e. never walks into a wall; on a cell
+whose only free neighbour is the one the ghost came from all four directions cost `inf`, all are "minimal", and a wall can be
+chosen (the chosen cell is never re-checked). -/
+def noDeadEndB (g : IGrid) : Bool :=
+  (List.range (xSize g)).all fun r => (List.range (ySize g)).all fun c =>
+    !decide (free g r c) ||
+    decide (2 ≤ ((List.range 4).filter (fun a =>
+      decide (free g (target g ((r : Int), (c : Int)) a).1 (target g ((r : Int), (c : Int)) a).2))).length)
+
 end PacMan
